@@ -290,3 +290,94 @@ func walkPath(data []byte, base int, path ...string) (*wBox, error) {
 	}
 	return b, nil
 }
+
+// ---------------------------------------------------------------- fragments
+
+func mMfhd(seq int64) []byte { return mkFull("mfhd", 0, 0, be32(seq)) }
+
+// mTfhd: flags select optional fields (0x1 base-data-offset, 0x2 sdi, 0x8 dur, 0x10 size, 0x20 flags,
+// 0x10000 duration-is-empty, 0x20000 default-base-is-moof).
+func mTfhd(flags int, trackID int64, baseOff, sdi, defDur, defSize, defFlags int64) []byte {
+	p := be32(trackID)
+	if flags&0x1 != 0 {
+		p = cat(p, be64(baseOff))
+	}
+	if flags&0x2 != 0 {
+		p = cat(p, be32(sdi))
+	}
+	if flags&0x8 != 0 {
+		p = cat(p, be32(defDur))
+	}
+	if flags&0x10 != 0 {
+		p = cat(p, be32(defSize))
+	}
+	if flags&0x20 != 0 {
+		p = cat(p, be32(defFlags))
+	}
+	return mkFull("tfhd", 0, flags, p)
+}
+
+func mTfdt(version int, t int64) []byte {
+	if version == 1 {
+		return mkFull("tfdt", 1, 0, be64(t))
+	}
+	return mkFull("tfdt", 0, 0, be32(t))
+}
+
+type mSample struct {
+	Dur, Size, Flags, Cto int64
+}
+
+// mTrun: flags 0x1 data-offset, 0x4 first-sample-flags, 0x100 dur, 0x200 size, 0x400 flags, 0x800 cto
+func mTrun(version, flags int, dataOffset int64, firstFlags int64, samples []mSample) []byte {
+	p := be32(int64(len(samples)))
+	if flags&0x1 != 0 {
+		p = cat(p, be32(dataOffset))
+	}
+	if flags&0x4 != 0 {
+		p = cat(p, be32(firstFlags))
+	}
+	for _, s := range samples {
+		if flags&0x100 != 0 {
+			p = cat(p, be32(s.Dur))
+		}
+		if flags&0x200 != 0 {
+			p = cat(p, be32(s.Size))
+		}
+		if flags&0x400 != 0 {
+			p = cat(p, be32(s.Flags))
+		}
+		if flags&0x800 != 0 {
+			p = cat(p, be32(s.Cto))
+		}
+	}
+	return mkFull("trun", version, flags, p)
+}
+
+// mFragInit: minimal fragmented init segment (ftyp + moov with empty sample tables and mvex).
+func mFragInit(trackIDs []int64, timescale int64, trexes ...[]byte) []byte {
+	var traks, trex []byte
+	for _, id := range trackIDs {
+		traks = cat(traks, mTrak(id, timescale, 0, true, nil, mStsd(), mStts(nil), mStsc(nil), mStsz(0, nil), mStco(nil)))
+		trex = cat(trex, mTrex(id, 0, 0, 0))
+	}
+	if len(trexes) > 0 {
+		trex = cat(trexes...)
+	}
+	return cat(mFtyp("iso6", 0, "iso6", "cmfc"), mkBox("moov", mMvhd(timescale, 0, int64(len(trackIDs)+1)), traks, mkBox("mvex", trex)))
+}
+
+// mSimpleFragment: moof(mfhd, traf(tfhd default-base-is-moof, tfdt, trun all-explicit)) + mdat(payload)
+func mSimpleFragment(seq, trackID, baseTime int64, samples []mSample, payload []byte, largeMdat bool) []byte {
+	build := func(off int64) []byte {
+		traf := mkBox("traf", mTfhd(0x20000, trackID, 0, 0, 0, 0, 0), mTfdt(1, baseTime), mTrun(1, 0xf01, off, 0, samples))
+		return mkBox("moof", mMfhd(seq), traf)
+	}
+	moof := build(0)
+	hdr := 8
+	if largeMdat {
+		hdr = 16
+	}
+	moof = build(int64(len(moof) + hdr))
+	return cat(moof, mMdat(payload, largeMdat))
+}
